@@ -1,0 +1,15 @@
+//go:build verif
+
+package signaling_rpc_server
+
+// VerifState reports the size of the relay's per-peer and per-session state and
+// the current epoch of every tracked session (keyed "peerA|peerB").
+func (s *Server) VerifState() (peers, sessions int, seqnos map[string]uint64) {
+	s.mtx.Lock()
+	defer s.mtx.Unlock()
+	seqnos = make(map[string]uint64, len(s.sessions))
+	for k, t := range s.sessions {
+		seqnos[k.peerA+"|"+k.peerB] = t.seqno
+	}
+	return len(s.peers), len(s.sessions), seqnos
+}
